@@ -2117,7 +2117,18 @@ def k0_solve_shape(core, rep):
                 elif isinstance(x, ast.Continue):
                     par = next((p for p in ast.walk(st) if isinstance(p, ast.If) and any(y is x for b in (p.body, p.orelse) for z in b for y in ast.walk(z))), None)
                     t = par.test if par is not None else None
-                    whole = isinstance(t, ast.Compare) and len(t.ops) == 1 and isinstance(t.ops[0], ast.In) and isinstance(t.left, ast.Name) and t.left.id == lv
+                    # the requested name is tested whole: every occurrence of the loop variable in the condition stands bare
+                    # (`form_name in seen`, `'.' in form_name`), never under a call, attribute or subscript that takes a part of it
+                    def _bare(tst):
+                        occ = [y for y in ast.walk(tst) if isinstance(y, ast.Name) and y.id == lv]
+                        part = [y for y in ast.walk(tst) if isinstance(y, (ast.Attribute, ast.Subscript, ast.Call, ast.Starred))
+                                and any(isinstance(z, ast.Name) and z.id == lv for z in ast.walk(y))]
+                        derived = [z for z in ast.walk(tst) if isinstance(z, ast.Name) and z.id != lv and z.id in part_names]
+                        return bool(occ) and not part and not derived
+                    part_names = {tt.id for s_ in loops[0].body for a_ in ast.walk(s_) if isinstance(a_, ast.Assign)
+                                  and any(isinstance(z, ast.Name) and z.id == lv for z in ast.walk(a_.value))
+                                  for t_ in a_.targets for tt in ast.walk(t_) if isinstance(tt, ast.Name)}
+                    whole = t is not None and _bare(t)
                     if not whole:
                         bad, why = x, f'a requested name is skipped under `{unparse(t, 50) if t is not None else "?"}`, which does not test the whole name'
     rep.ob('K0', 'every-requested-name-is-added', bad is None,
